@@ -342,7 +342,7 @@ theorem spec_dial_model (lazy : Bool) (names : List Bytes) (input : Bytes) :
             | done r' =>
               have := himm rfl
               simp at this
-              exact absurd this.1 (hnotok p)
+              exact absurd (by rw [this.1]) (hnotok p)
             | expecting c' x' => have := himm rfl; simp at this
             | await c' t' =>
               obtain ⟨e, he⟩ := hov1 ho (by intro r; simp) rfl
